@@ -128,6 +128,3 @@ fn c13_q_header_cut_at_field_boundaries() {
     }
     kani::cover!(true);
 }
-
-
-
